@@ -38,12 +38,17 @@ var knownSignatures = map[string]string{
 	"N05": "N05-octal-escape-above-177-raw-byte",
 	"N06": "N06-prefix-update-group-before-exponent",
 	"N07": "N07-grouped-numeric-literal-before-dot",
+	"N08": "N08-isFalsy-misreads-hex-digits",
+	"N09": "N09-nul-or-octal-escape-joined-with-digit",
+	"N10": "N10-comma-group-left-operand-unwrapped",
+	"N11": "N11-dangling-else-after-empty-else-dropped",
 }
 
 var reK08 = regexp.MustCompile(`\\u(005[cC]|\{0*5[cC]\})`)
-var reK09 = regexp.MustCompile(`(\$|\\x24|\\u0024|\\u\{0*24\}|\\44)(\\?\{|\\x7[bB]|\\u007[bB]|\\u\{0*7[bB]\}|\\173)`)
+var reK09 = regexp.MustCompile(`(\$|\\x24|\\u0024|\\u\{0*24\}|\\44)(\\(\r\n|\n|\r|\x{2028}|\x{2029}))*(\\?\{|\\x7[bB]|\\u007[bB]|\\u\{0*7[bB]\}|\\173)`)
 var reK30 = regexp.MustCompile(`(?i)(<|\\x3c|\\u003c|\\u\{0*3c\}|\\74)\\?/`)
 var reN05 = regexp.MustCompile(`\\[23][0-7][0-7]`)
+var reN09 = regexp.MustCompile(`\\[0-7]{1,3}(\\(\r\n|\n|\r|\x{2028}|\x{2029})|\x01)+[0-9]`)
 var reHost = regexp.MustCompile(`^h[0-9]$`)
 
 var binaryOpTokens = map[string]bool{
@@ -171,6 +176,24 @@ func scanKnown(src string) []string {
 			if reK08.MatchString(body) {
 				found["K08"] = true
 			}
+			if t.k == tStr {
+				// literal concatenations are merged before the template conversion
+				joined := body[1 : len(body)-1]
+				marked := joined
+				k := i
+				for isPunct(at(k+1), "+") && at(k+2).k == tStr {
+					nb := at(k + 2).s
+					joined += nb[1 : len(nb)-1]
+					marked += "\x01" + nb[1:len(nb)-1]
+					k += 2
+				}
+				if k > i {
+					body = joined
+				}
+				if reN09.MatchString(marked) {
+					found["N09"] = true
+				}
+			}
 			for _, m := range reK09.FindAllString(body, -1) {
 				if m != "${" && m != "$\\{" {
 					found["K09"] = true
@@ -186,6 +209,26 @@ func scanKnown(src string) []string {
 				p, nx := at(i-1), at(i+1)
 				if isPunct(p, "!") || isPunct(nx, "?") || isPunct(p, "(") && isPunct(nx, ")") {
 					found["K13"] = true
+				}
+				if isPunct(nx, ")") {
+					// last operand of a parenthesised condition / group (not a call argument)
+					depth := 0
+					for k := i + 1; k >= 0; k-- {
+						u := toks[k]
+						if u.k == tPunct && (u.s == ")" || u.s == "]" || u.s == "}") || u.k == tTemplate && u.tmpl == 3 {
+							depth++
+						} else if u.k == tPunct && (u.s == "(" || u.s == "[" || u.s == "{") || u.k == tTemplate && u.tmpl == 1 {
+							depth--
+							if depth == 0 {
+								q := at(k - 1)
+								isCall := q.k == tIdent && !jsKeywords[q.s] || isPunct(q, ")") || isPunct(q, "]") || isWord(q, "super") || q.k == tTemplate && (q.tmpl == 0 || q.tmpl == 3)
+								if !isCall {
+									found["K13"] = true
+								}
+								break
+							}
+						}
+					}
 				}
 			}
 			// N01: string keys/indices that look like non-canonical numbers
@@ -212,6 +255,23 @@ func scanKnown(src string) []string {
 					if st.k == tStr && isPunct(at(k+2), "]") && len(st.s) > 2 && isIdentStart(st.s[1]) {
 						found["N04"] = true
 					}
+				}
+			}
+			if len(t.s) > 2 && t.s[0] == '0' && (t.s[1] == 'x' || t.s[1] == 'X') {
+				// N08: isFalsy scans the literal text; e/E/n stop the scan, 0 . x b o are skipped
+				falsy := true
+				for _, c := range t.s {
+					if c == 'e' || c == 'E' || c == 'n' {
+						break
+					}
+					if !strings.ContainsRune("0.xXbBoO_", c) {
+						falsy = false
+						break
+					}
+				}
+				zero := strings.Trim(strings.TrimRight(t.s[2:], "n"), "0_") == ""
+				if falsy && !zero {
+					found["N08"] = true
 				}
 			}
 			// N07: (1.0).a -> 1.a, (1n).a -> 1n..a
@@ -241,6 +301,10 @@ func scanKnown(src string) []string {
 			case "with":
 				if isPunct(at(i+1), "(") {
 					found["K14"] = true
+				}
+			case "else":
+				if empty, _ := emptyStmt(i + 1); empty {
+					found["N11"] = true
 				}
 			case "isNaN":
 				if isPunct(at(i+1), "(") && !isPunct(at(i-1), ".") {
@@ -527,6 +591,30 @@ func scanKnown(src string) []string {
 					}
 				}
 			case ")":
+				// N10: (a,b) OP c with OP other than && and ||
+				if nx := at(i + 1); (nx.k == tPunct || nx.k == tIdent) && binaryOpTokens[nx.s] && nx.s != "&&" && nx.s != "||" && nx.s != "&&=" && nx.s != "||=" && nx.s != "??=" {
+					depth := 0
+					hasComma := false
+					for k := i; k >= 0; k-- {
+						u := toks[k]
+						if u.k == tPunct && (u.s == ")" || u.s == "]" || u.s == "}") || u.k == tTemplate && u.tmpl == 3 {
+							depth++
+						} else if u.k == tPunct && (u.s == "(" || u.s == "[" || u.s == "{") || u.k == tTemplate && u.tmpl == 1 {
+							depth--
+							if depth == 0 {
+								// a call's argument list is not a group
+								p := at(k - 1)
+								isCall := p.k == tIdent && !jsKeywords[p.s] || isPunct(p, ")") || isPunct(p, "]") || isWord(p, "this") || isWord(p, "super") || p.k == tTemplate && (p.tmpl == 0 || p.tmpl == 3)
+								if hasComma && !isCall && u.s == "(" {
+									found["N10"] = true
+								}
+								break
+							}
+						} else if depth == 1 && isPunct(u, ",") {
+							hasComma = true
+						}
+					}
+				}
 				// N03: (a?.b)(...)  /  (a?.b)`..`  : group around an optional chain followed by a call
 				nx := at(i + 1)
 				if isPunct(nx, "(") || nx.k == tTemplate && (nx.tmpl == 0 || nx.tmpl == 1) {
@@ -546,6 +634,12 @@ func scanKnown(src string) []string {
 					}
 				}
 			}
+		}
+	}
+	// K38: {a:a} is printed as {a} for every Version
+	for i := 0; i+3 < n; i++ {
+		if (isPunct(toks[i], "{") && !toks[i].block || isPunct(toks[i], ",")) && toks[i+1].k == tIdent && isPunct(toks[i+2], ":") && toks[i+3].k == tIdent && toks[i+3].s == toks[i+1].s && (isPunct(at(i+4), ",") || isPunct(at(i+4), "}")) {
+			found["K38"] = true
 		}
 	}
 	// N02: trailing parameters with a default value that has side effects
@@ -603,6 +697,8 @@ func scanKnown(src string) []string {
 				inDefault = true
 			} else if depth == 0 && isPunct(u, ",") {
 				inDefault = false
+			} else if inDefault && isName(u) && !sandboxNames[u.s] && !paramBefore(toks, i, k, u.s) {
+				found["N02"] = true // a default that may throw a ReferenceError
 			} else if inDefault && (u.k == tPunct && (assignOps[u.s] || u.s == "++" || u.s == "--" || u.s == "." || u.s == "?.") || isWord(u, "new") || isWord(u, "yield") || isWord(u, "await") || isWord(u, "delete") || u.k == tTemplate && u.tmpl != 0) {
 				found["N02"] = true
 			}
@@ -662,6 +758,27 @@ func emptyStringValue(lit string) bool {
 	b = strings.ReplaceAll(b, "\\\u2028", "")
 	b = strings.ReplaceAll(b, "\\\u2029", "")
 	return b == ""
+}
+
+var sandboxNames = func() map[string]bool {
+	m := map[string]bool{"undefined": true, "NaN": true, "Infinity": true}
+	for _, g := range globalsTable {
+		m[g.name] = true
+	}
+	for i := 0; i < 10; i++ {
+		m["h"+string(rune('0'+i))] = true
+	}
+	return m
+}()
+
+// paramBefore: name occurs as an identifier earlier in the same parameter list.
+func paramBefore(toks []token, open, k int, name string) bool {
+	for q := open + 1; q < k; q++ {
+		if toks[q].k == tIdent && toks[q].s == name {
+			return true
+		}
+	}
+	return false
 }
 
 func isAllDigits(s string) bool {
